@@ -43,13 +43,16 @@ func goEnv(goarch string) []string {
 			k = kv[:i]
 		}
 		switch k {
-		case "GOFLAGS", "GOPROXY", "GOSUMDB", "GOTOOLCHAIN", "GOWORK", "GOARCH", "GO111MODULE":
+		case "GOFLAGS", "GOPROXY", "GOSUMDB", "GOTOOLCHAIN", "GOWORK", "GOARCH", "GOOS", "GO111MODULE":
 			continue
 		}
 		env = append(env, kv)
 	}
 	env = append(env, "GOFLAGS=-mod=mod", "GOPROXY=off", "GOSUMDB=off", "GOTOOLCHAIN=local", "GOWORK=off", "GO111MODULE=on")
-	if goarch != "" {
+	// goarch is "" (host), "<arch>" or "<os>/<arch>"
+	if i := strings.IndexByte(goarch, '/'); i >= 0 {
+		env = append(env, "GOOS="+goarch[:i], "GOARCH="+goarch[i+1:], "CGO_ENABLED=0")
+	} else if goarch != "" {
 		env = append(env, "GOARCH="+goarch)
 	}
 	return env
